@@ -15,8 +15,10 @@ OUTCOMES = ["success", "failure", "error", "skip", "xfail", "uxsuccess"]
 CTYPES = [ContentType("application", "octet-stream"),
           ContentType("text", "plain", {"charset": "utf8"}),
           ContentType("text", "x-traceback", {"charset": "utf8", "language": "python"}),
-          ContentType("application", "json")]
-TEXT_CHUNKS = [["é".encode("utf8"), b"x\n", b""], [b"tb line\n", "ü".encode("utf8"), b"end"], [b'{"k": ', b"", b"1}"]]
+          ContentType("application", "json"),
+          ContentType("video", "x-test", {"codecs": "avc1.4d, mp4a.40"})]      # a comma inside a non-charset parameter
+TEXT_CHUNKS = [["é".encode("utf8"), b"x\n", b""], [b"tb line\n", "ü".encode("utf8"), b"end"], [b'{"k": ', b"", b"1}"],
+               [b"\x00\x01", b"\xff", b"\x00\x01"]]
 NAMES = ["d", "détail", "traceback-1", "reason2"]
 REASONS = ["plain reason", "raison é"]
 FINAL_STATUS = {"success": "success", "failure": "fail", "error": "fail", "skip": "skip", "xfail": "xfail",
@@ -188,7 +190,7 @@ def run_roundtrip(tests, use_times, tagmode, time_tokens):
 def pick_details(pre, nd, sel_ct, sel_nc, raw_chunks, name_rot):
     out = []
     for j in range(nd):
-        cti = ch.sel("%sct%d" % (pre, j), sel_ct[j], 4)
+        cti = ch.sel("%sct%d" % (pre, j), sel_ct[j], len(CTYPES))
         nc = ch.sel("%snc%d" % (pre, j), sel_nc[j], 4)
         if cti == 0:
             chunks = raw_chunks[3 * j:3 * j + nc]
@@ -201,7 +203,7 @@ def pick_details(pre, nd, sel_ct, sel_nc, raw_chunks, name_rot):
 def h_one(o: int, form: int, nd: int, ct0: int, nc0: int, ct1: int, nc1: int, b0: bytes, b1: bytes, b2: bytes,
           b3: bytes, b4: bytes, b5: bytes, name_rot: int, use_times: bool, tagmode: int, t0: int, t1: int) -> bool:
     """
-    pre: 0 <= o < 6 and 0 <= form < 2 and 0 <= nd <= 2 and 0 <= ct0 < 4 and 0 <= ct1 < 4 and 0 <= nc0 < 4 and 0 <= nc1 < 4
+    pre: 0 <= o < 6 and 0 <= form < 2 and 0 <= nd <= 2 and 0 <= ct0 < 5 and 0 <= ct1 < 5 and 0 <= nc0 < 4 and 0 <= nc1 < 4
     pre: len(b0) <= 1 and len(b1) <= 1 and len(b2) <= 1 and len(b3) <= 1 and len(b4) <= 1 and len(b5) <= 1
     pre: 0 <= name_rot < 4 and 0 <= tagmode < 4
     post: _
@@ -231,7 +233,7 @@ def h_one(o: int, form: int, nd: int, ct0: int, nc0: int, ct1: int, nc1: int, b0
 def h_two(o0: int, o1: int, form: int, ct0: int, nc0: int, ct1: int, nc1: int, b0: bytes, b1: bytes, b3: bytes,
           b4: bytes, use_times: bool, tagmode: int, t0: int, t1: int, t2: int, t3: int) -> bool:
     """
-    pre: 0 <= o0 < 6 and 0 <= o1 < 6 and 0 <= form < 2 and 0 <= ct0 < 4 and 0 <= ct1 < 4 and 0 <= nc0 < 3 and 0 <= nc1 < 3
+    pre: 0 <= o0 < 6 and 0 <= o1 < 6 and 0 <= form < 2 and 0 <= ct0 < 5 and 0 <= ct1 < 5 and 0 <= nc0 < 3 and 0 <= nc1 < 3
     pre: len(b0) <= 1 and len(b1) <= 1 and len(b3) <= 1 and len(b4) <= 1 and 0 <= tagmode < 4
     post: _
     """
@@ -263,11 +265,11 @@ def _one_shards(tier):
     out = [({"form": 0}, 600)]
     for o in range(6):
         out.append(({"form": 1, "o": o, "nd": 0}, 600))
-        out += [({"form": 1, "o": o, "nd": 1, "ct0": c}, 900) for c in range(4)]
+        out += [({"form": 1, "o": o, "nd": 1, "ct0": c}, 900) for c in range(5)]
         if tier == "quick":
-            out += [({"form": 1, "o": o, "nd": 2, "ct0": c, "ct1": d, "name_rot": 0, "tagmode": 3}, 1800) for c in range(4) for d in range(4)]
+            out += [({"form": 1, "o": o, "nd": 2, "ct0": c, "ct1": d, "name_rot": 0, "tagmode": 3}, 1800) for c in range(5) for d in range(5)]
         else:
-            out += [({"form": 1, "o": o, "nd": 2, "ct0": c, "ct1": d}, 3000) for c in range(4) for d in range(4)]
+            out += [({"form": 1, "o": o, "nd": 2, "ct0": c, "ct1": d}, 3000) for c in range(5) for d in range(5)]
     return out
 
 
@@ -284,7 +286,7 @@ HARNESSES = [
     Harness("one", h_one, _one_shards,
             bounds={"quick": "one test: 6 outcomes x (exc_info/reason/plain | details); 0..2 details with names from a 4-name alphabet "
                              "(non-ASCII included), content type in {octet-stream, text/plain;charset=utf8, text/x-traceback with two "
-                             "parameters, application/json}, 0..3 chunks each; octet-stream chunks are symbolic bytes of length <= 1 (any "
+                             "parameters, application/json, a type whose parameter value contains a comma}, 0..3 chunks each; octet-stream chunks are symbolic bytes of length <= 1 (any "
                              "value, empty allowed), text chunks concrete incl. an empty chunk and a chunk ending inside nothing; explicit "
                              "symbolic time tokens or none; run-level and/or test-level tags (two-detail case: fixed name rotation and tags)",
                     "thorough": "two details with every pair of content types, all name rotations and tag modes"},
